@@ -363,7 +363,7 @@ Lemma final_headers a ds p p0 p1 hp fl lines h1 :
     else joined (flat_map (line_adds key) lines).
 Proof.
   intros AR AH key.
-  destruct AR as [F _ _ R C _ B]. destruct AH as [_ _ AL _ _ _ _ AF].
+  destruct AR as [F _ _ R C _ B]. destruct AH as [_ _ AL _ _ _ _ _ AF].
   destruct F as (Fh & Fb & Fc & _). rewrite Fh in AL.
   pose proof (add_header_lines_hget _ _ _ key AL) as Hg. cbn [hget] in Hg. rewrite fold_append_joined in Hg.
   assert (ND : NoDup (hkeys h1)) by (eapply add_header_lines_nodup; [exact AL|constructor]).
